@@ -5,6 +5,7 @@ import AM.ProtoTracker
 import AM.Model.Pipe
 import AM.Model.DirReader
 import AM.Model.Health
+import AM.Model.Conc
 /-! `amdriver <mode> [property]`: runs the executable model on cases read from stdin, one per line,
 prints the model's canonical observation, the verdict of the property's executable `Spec` on it
 and — when the case carries the implementation's observation (`obs=`) — the verdict on that. -/
@@ -218,6 +219,65 @@ def healthLine (f : List String) : String :=
     s!"{id} {obs} spec=ok ispec={isp} dom=1 nt={if out.length ≥ 2 then "1" else "0"}"
   | _ => "!badline"
 
+/-! ### C03 / C18: concurrent programs — the set of outcomes of all sequential orders -/
+
+/-- all interleavings of the threads' operation lists (each element tagged with its thread) -/
+partial def merges {α} (ths : List (List α)) : List (List (Nat × α)) :=
+  if ths.all List.isEmpty then [[]] else
+  ((List.range ths.length).zip ths).flatMap fun p =>
+    match p.2 with
+    | [] => []
+    | x :: r => (merges (ths.set p.1 r)).map fun m => (p.1, x) :: m
+
+def trackerOutcome (ops : List String) : Option String :=
+  let parsed := ((List.range ops.length).zip ops).mapM fun p => Proto.parseOp p.1 p.2
+  parsed.map fun h =>
+    let st := (Tr.run {} h).1
+    if st.out.isEmpty then "-" else
+    String.intercalate "," (st.out.map fun em =>
+      s!"{em.ev.ts}/{String.ofList ((aLookup "loggedAs" em.login.subjects).getD [])}")
+
+def healthOutcome (nthreads : Nat) (ops : List (Nat × String)) : Option String :=
+  let r := ops.foldl (fun (acc : Option (Health.M × List (Nat × String))) o =>
+    acc.bind fun (m, ans) =>
+      let x := o.2
+      if x.startsWith "add:" then (ofHex (x.drop 4).toString).map fun c => (Health.apply m (.add c), ans)
+      else if x.startsWith "ready:" then (ofHex (x.drop 6).toString).map fun c => (Health.apply m (.ready c), ans)
+      else if x == "get" then some (m, ans ++ [(o.1, Health.render (Health.respond m))])
+      else none) (some ([], []))
+  r.map fun (_, ans) =>
+    let s := String.intercalate "/" ((List.range nthreads).map fun i =>
+      String.intercalate "+" ((ans.filter fun a => a.1 == i).map (·.2)))
+    if s == "" then "-" else s
+
+def dedupS (l : List String) : List String :=
+  (l.toArray.qsort (· < ·)).toList.eraseDups
+
+/-- `<id> <tracker|health> <max> <thread>|<thread>|… [obs=outcomes=…;n=…]` (obs fields joined by `;`) -/
+def concLine (f : List String) : String :=
+  match f with
+  | id :: sys :: _max :: prog :: rest =>
+    let ths := (prog.splitOn "|").map fun t => t.splitOn ";"
+    let ms := merges ths
+    let outs := ms.map fun m =>
+      if sys == "tracker" then trackerOutcome (m.map (·.2)) else healthOutcome ths.length m
+    if outs.any Option.isNone then s!"{id} !badcase" else
+    let model := dedupS (outs.filterMap fun o => o)
+    let obsFields := ((kv rest "obs").getD "").splitOn ";"
+    let implOut := ((kv obsFields "outcomes").getD "").splitOn "~" |>.map fun o => (o.splitOn "@").headD ""
+    let exhaustive := kv obsFields "exhaustive" == some "1"
+    let haveObs := (kv rest "obs").isSome
+    let shown := if !haveObs || exhaustive then model else model.filter fun o => implOut.contains o
+    let isp :=
+      if !haveObs then "-" else
+      if kv obsFields "deadlock" == some "true" then "FAIL:deadlock" else
+      match implOut.find? fun o => !(model.contains o) with
+      | some o => if o.startsWith "PANIC" then "FAIL:panic" else "FAIL:outcome-of-no-sequential-order"
+      | none => if (kv obsFields "shape").isSome then "ok" else "FAIL:unparsable-observation"
+    let nt := if model.length ≥ 2 || ms.length ≥ 6 then "1" else "0"
+    s!"{id} {String.intercalate "~" shown} spec=ok ispec={isp} dom=1 nt={nt} merges={ms.length}"
+  | _ => "!badline"
+
 partial def loop (h : IO.FS.Stream) (out : IO.FS.Stream) (f : List String → String) : IO Unit := do
   let line ← h.getLine
   if line.isEmpty then return ()
@@ -231,6 +291,7 @@ def main (args : List String) : IO UInt32 := do
   match args with
   | ["sshd", prop] => loop stdin stdout (sshdLine prop); return 0
   | ["c07"] => loop stdin stdout c07Line; return 0
+  | ["conc"] => loop stdin stdout concLine; return 0
   | ["health"] => loop stdin stdout healthLine; return 0
   | ["dir"] => loop stdin stdout dirLine; return 0
   | ["pipe"] => loop stdin stdout pipeLine; return 0
